@@ -67,7 +67,53 @@ def main():
         fb(3, 4)
     except Exception as e:  # noqa: BLE001
         print("warmup:", repr(e)[:100])
+    # Gaussian threshold / loop-hafnian sampling, fermionic simulators, TF/JAX-free extras
+    try:
+        for tor in (False, True):
+            with pq.Program() as program:
+                pq.Q() | pq.Vacuum()
+                pq.Q(0) | pq.Squeezing(0.4, 0.3)
+                pq.Q(1) | pq.Displacement(r=0.3, phi=0.2)
+                pq.Q(0, 1) | pq.Beamsplitter(0.4, 0.2)
+                pq.Q(0, 1) | pq.ThresholdMeasurement()
+            pq.GaussianSimulator(d=2, config=pq.Config(seed_sequence=1, use_torontonian=tor,
+                                                       measurement_cutoff=4)).execute(program, shots=4)
+        with pq.Program() as program:
+            pq.Q() | pq.Vacuum()
+            pq.Q(0) | pq.Squeezing(0.4, 0.3)
+            pq.Q(1) | pq.Displacement(r=0.3, phi=0.2)
+            pq.Q(0, 1) | pq.Beamsplitter(0.4, 0.2)
+        g = pq.GaussianSimulator(d=2, config=pq.Config(cutoff=4)).execute(program).state
+        g.get_particle_detection_probability((1, 1))
+        g.get_threshold_detection_probability((1, 0))
+        g.wigner_function(positions=[0.1], momentums=[0.2], modes=(0,))
+        g.fidelity(g)
+        done += 1
+    except Exception as e:  # noqa: BLE001
+        print("warmup: gaussian extras", repr(e)[:100])
+    try:
+        import piquasso.fermionic as pf
+
+        for simcls in (pf.PureFockSimulator, pf.GaussianSimulator):
+            with pq.Program() as program:
+                pq.Q() | pq.StateVector([1, 0, 1])
+                pq.Q(0, 1, 2) | pq.Interferometer(progs.haar_unitary(3, 1, "haar"))
+                pq.Q(0, 1) | pq.Squeezing2(0.2, 0.1)
+            s = simcls(d=3, config=pq.Config(cutoff=4)).execute(program).state
+            _ = s.fock_probabilities
+            done += 1
+    except Exception as e:  # noqa: BLE001
+        print("warmup: fermionic", repr(e)[:100])
     print(f"numba warm-up: {done} runs in {time.time() - t0:.0f}s")
+    import os
+    from pathlib import Path
+
+    cache = os.environ.get("NUMBA_CACHE_DIR")
+    if cache:
+        try:
+            (Path(cache) / ".warm").write_text(str(int(time.time())))
+        except OSError:
+            pass
 
 
 if __name__ == "__main__":
